@@ -422,8 +422,18 @@ class Body:
         if depth > 60:
             return ("unknown", "depth")
         key = (local, site.bb, site.idx, want_proj)
-        if key in self._prov_cache:
+        if not stack and key in self._prov_cache:
             return self._prov_cache[key]
+        if stack:
+            # results computed inside another query embed that query's cycle cut ('loop' markers): never cache them,
+            # so that every top-level query yields the same tree regardless of what was asked before
+            return self._prov_local_uncached(local, site, depth, stack, want_proj)
+        r = self._prov_local_uncached(local, site, depth, stack, want_proj)
+        self._prov_cache[key] = r
+        return r
+
+    def _prov_local_uncached(self, local, site, depth, stack, want_proj):
+        key = None
         ns = self.reaching_defs(local, site)
         whole = [n for n in ns if self._defs[n][4] == ()]
         partial = [n for n in ns if self._defs[n][4] != ()]
@@ -433,7 +443,6 @@ class Body:
             if exact and len(exact) == len([n for n in partial if overlaps(self._defs[n][4], want_proj)]) and not whole:
                 alts = [self._def_expr(n, depth, stack) for n in exact]
                 r = ("#exact", alts[0] if len(alts) == 1 else ("phi", tuple(alts)))
-                self._prov_cache[key] = r
                 return r
             if exact and whole:
                 # both a whole def and later partial overwrite reach: phi of exact partials (later write wins on
@@ -446,7 +455,6 @@ class Body:
                     alts.append(e)
                 # if the partial def is in the same block after the whole def, it wins outright
                 r = ("#exact", alts[0] if len(exact) == 1 and self._later(exact[0], whole) else ("phi", tuple(alts)))
-                self._prov_cache[key] = r
                 return r
         if not whole:
             if partial:
@@ -457,7 +465,6 @@ class Body:
                 r = ("parts", tuple(sorted((k, tuple(v)) for k, v in fields.items())))
             else:
                 r = ("undef", local)
-            self._prov_cache[key] = r
             return r
         alts = []
         for n in whole:
@@ -468,7 +475,6 @@ class Body:
             if a not in uniq:
                 uniq.append(a)
         r = uniq[0] if len(uniq) == 1 else ("phi", tuple(uniq))
-        self._prov_cache[key] = r
         return r
 
     def _later(self, n, whole):
@@ -544,6 +550,26 @@ class Body:
         if k == "repeat":
             return ("repeat", self.prov_operand(r["o"], site, depth, stack), r["n"])
         return ("unknown", k)
+
+    def root_var(self, op, site, depth=0):
+        """Follow plain copies/moves (and tuple/aggregate wrapping of a single value) back to the variable an operand
+        stands for: (local, frozenset of reaching definition ids at the point of the copy). Two operands with the same
+        root_var denote the same run-time value. Loop-carried variables are handled (no expression trees involved)."""
+        if op.get("k") not in ("cp", "mv") or depth > 30:
+            return None
+        p = op["p"]
+        if p["p"]:
+            return ("proj", p["l"], proj_key(p["p"]), frozenset(self.reaching_defs(p["l"], site)))
+        l = p["l"]
+        ns = self.reaching_defs(l, site)
+        whole = [n for n in ns if self._defs[n][4] == ()]
+        if len(whole) == 1 and len(ns) == 1:
+            _, dsite, kind, payload, _ = self._defs[whole[0]]
+            if kind == "assign" and payload["k"] == "use" and payload["o"].get("k") in ("cp", "mv"):
+                r = self.root_var(payload["o"], dsite, depth + 1)
+                if r is not None:
+                    return r
+        return ("var", l, frozenset(ns))
 
     # ------------------------------------------------------------------ conditions / control dependence
     def cond_edges(self, pred):
@@ -665,7 +691,7 @@ class Body:
             t = self.term(bb)
             if t["k"] == "drop":
                 p = t["p"]
-                drops = drops | {(p["l"], proj_key(p["p"]), t["ty"])}
+                drops = drops | {(p["l"], proj_key(p["p"]), t["ty"], tuple(t.get("adts", ())))}
             if t["k"] == "switch":
                 d = t["d"]
                 if d.get("k") in ("cp", "mv") and not d["p"]["p"] and st.get(d["p"]["l"]) is not None:
